@@ -81,11 +81,19 @@ func mMfra(trackIDs []int64, moofOffsets []int64) []byte {
 	return mkBox("mfra", tfras, mkFull("mfro", 0, 0, be32(int64(size))))
 }
 
+// c12DefDur (FileAsm.tla p.truns = 3): the truns carry no per-sample durations; the duration of both samples is the
+// default_sample_duration of the tfhd, which differs from the trex default (0). Set per case before materialising / judging.
+var c12DefDur bool
+
 // fragment contents: per track two samples; durations depend on fragment and track
 func fragSamples(fragNr, track int) []mSample {
 	cto := int64(0)
 	if track == 1 {
 		cto = 2
+	}
+	if c12DefDur {
+		d := int64(15*track + 2*fragNr)
+		return []mSample{{Dur: d, Size: int64(3 + track), Flags: 0x02000000, Cto: cto}, {Dur: d, Size: int64(5 + fragNr%3), Flags: 0x01010000, Cto: 0}}
 	}
 	return []mSample{{Dur: int64(10*track + fragNr), Size: int64(3 + track), Flags: 0x02000000, Cto: cto},
 		{Dur: int64(20*track + 2*fragNr), Size: int64(5 + fragNr%3), Flags: 0x01010000, Cto: 0}}
@@ -118,7 +126,10 @@ func mMultiFragment(fragNr, ntracks, truns int, rev bool) (moof, mdat []byte) {
 		var trafs []byte
 		for t := 1; t <= ntracks; t++ {
 			kids := [][]byte{mTfhd(0x20000, int64(t), 0, 0, 0, 0, 0), mTfdt(1, baseTime(fragNr, t))}
-			if smp := fragSamples(fragNr, t); truns == 2 && len(smp) == 2 {
+			if smp := fragSamples(fragNr, t); truns == 3 {
+				kids[0] = mTfhd(0x20008, int64(t), 0, 0, smp[0].Dur, 0, 0)
+				kids = append(kids, mTrun(1, 0xe01, offs[t-1], 0, smp))
+			} else if truns == 2 && len(smp) == 2 {
 				kids = append(kids, mTrun(1, 0xf01, offs[t-1], 0, smp[:1]), mTrun(1, 0xf01, offs[t-1]+smp[0].Size, 0, smp[1:]))
 			} else {
 				kids = append(kids, mTrun(1, 0xf01, offs[t-1], 0, smp))
@@ -307,6 +318,7 @@ func c12Replay(args []string) error {
 		if err := json.Unmarshal(line, &c); err != nil {
 			return err
 		}
+		c12DefDur = c.P.Truns == 3
 		boxes := c.materialise()
 		file := cat(boxes...)
 		posIdx := map[uint64]int{}
@@ -437,6 +449,7 @@ func c12Tool(args []string) error {
 			return err
 		}
 		n++
+		c12DefDur = c.P.Truns == 3
 		if c.Moofless || c.P.Flags == "ism" || c.P.Flags == "both" || n%stride != int(seedFromEnv())%stride {
 			return nil
 		}
